@@ -273,6 +273,15 @@ F5Class(m, sev) ==
         /\ m.loc[j].off >= m.heads[k].ck /\ HasIdx(m.ref, m.loc[j].i)
         /\ Le(IdAt(m.ref, m.loc[j].i), m.heads[k].st.l)
 
+\* F5 on a store recovered from a crash: the write in progress when the machine died (an append whose call had
+\* not returned, so its entries are not in `loc` yet) is the newest part of the journal; if it made it into the
+\* image, its entries are live, journalled after every closed chunk, and evictable when they compare <= a
+\* closing-time last (re-append after a truncation, same or lower id).
+F5Pending(m) ==
+  /\ m.pend.op = "append"
+  /\ \E k \in 1..Len(m.heads) : \E j \in 1..Len(m.pend.args.es) :
+        m.heads[k].st.l # None /\ Le(EId(m.pend.args.es[j]), m.heads[k].st.l)
+
 \* which property a wrong read / state speaks about, by context
 ReadProp(m) ==
   IF m.cfg.ci >= 0 \/ m.cfg.cc >= 0 \/ m.wactive THEN "C07"
@@ -880,7 +889,7 @@ ProbeStep(m0, e) ==
   IF o.esr # "ok"
   THEN \* under small cache limits an unreadable live entry is C07's subject, otherwise C03's
        ViolKeep(m, IF m.cfg.ci >= 0 \/ m.cfg.cc >= 0 THEN "C07" ELSE "C03", "read_error_after_recovery", e,
-                [esr |-> o.esr, img |-> e.img, f5 |-> F5Class(m, o.cache.sev)])
+                [esr |-> o.esr, img |-> e.img, f5 |-> F5Class(m, o.cache.sev) \/ F5Pending(m)])
   ELSE IF ks = {} /\ ~inPend
   THEN ViolKeep(m, "C03", "recovered_state_is_no_acked_prefix", e,
                 [got |-> ObsView(o), acked |-> m.acked, nacc |-> m.nacc, img |-> e.img,
@@ -897,7 +906,7 @@ ProbeStep(m0, e) ==
                         [got |-> ObsView(e.cont.obs1), esr |-> e.cont.obs1.esr, want |-> want, img |-> e.img,
                          \* F5 on the recovered store: the entry just appended (journalled after everything
                          \* else) compares <= the boundary recovery left behind (only after a truncation)
-                         f5 |-> F5Class(m, e.cont.obs1.cache.sev) \/ Le(<<ent[1], ent[2]>>, e.cont.obs1.cache.sev)])
+                         f5 |-> F5Class(m, e.cont.obs1.cache.sev) \/ F5Pending(m) \/ Le(<<ent[1], ent[2]>>, e.cont.obs1.cache.sev)])
           ELSE IF e.cont.obs2.esr # "ok" \/ ObsView(e.cont.obs2) # want
           THEN ViolKeep(m, "C05", "recovered_store_inconsistent_after_continuation", e,
                         [got |-> ObsView(e.cont.obs2), want |-> want, img |-> e.img])
